@@ -195,8 +195,39 @@ theorem Core.pushHead {s : State} {r h : Id} (hc : Core s r [] .p1) (hh : s.head
   have hne : h ≠ r := by
     rintro rfl
     rw [hc.root_name] at hhn; revert hhn; decide
+  have hadj : AdjD s.dom (s.openElems ++ [h]) := by
+    have hhr : h ∈ s.dom.childrenOf r := by
+      obtain ⟨h', e1, e2, _⟩ := hc.elems
+      rw [hh] at e1; cases e1
+      exact (mem_rootElems (by rw [e2]; simp)).1
+    have hph : s.dom.parentOf h = some r := hc.adj.lk r h hhr
+    have hpr : s.dom.parentOf r = some 0 := hc.adj.lk 0 r hc.rdoc
+    have hrel : s.dom.isElement r = true := hc.late.st.oe r hc.root_mem
+    refine hc.adj.push (fun hx => ?_) (fun hm => ?_) (fun e he heO => ?_) (fun tc e htc he heO => ?_) (fun hn => ?_)
+    · rw [hhn] at hx; exact absurd hx (by decide)
+    · have := hc.adj.lk h h hm
+      rw [hph] at this; exact hne (Option.some.inj this).symm
+    · rw [hst] at heO
+      have : e = r := by simpa using heO
+      subst this
+      have := hc.adj.lk h e he
+      rw [hpr] at this
+      exact ne_zero_of_isElement hc.late.base hel (Option.some.inj this).symm
+    · obtain ⟨t0, tdoc⟩ := hc.late.base.tcOk h tc htc
+      rw [hst] at heO
+      have : e = r ∨ e = h := by simpa using heO
+      rcases this with rfl | rfl
+      · have := hc.adj.lk tc e he
+        rw [hpr] at this
+        exact t0 (Option.some.inj this).symm
+      · have := hc.adj.lk tc e he
+        rw [hph] at this
+        have : r = tc := Option.some.inj this
+        subst this
+        unfold Dom.isElement at hrel; rw [tdoc] at hrel; cases hrel
+    · rw [hhn] at hn; exact absurd hn (by decide)
   refine ⟨⟨hc.late.push ⟨hel, hnd⟩, by show s.openElems ++ [h] = _; rw [hst]; rfl, hc.rdoc, ?_, ?_, hc.afn, ?_, hc.tmm,
-    hc.form, hc.rtu, hc.rnd, hc.kids, hc.elems, (by intro y hy; cases hy), hc.afx⟩, hhn⟩
+    hc.form, hc.rtu, hc.rnd, hc.kids, hc.elems, (by intro y hy; cases hy), hc.afx, hadj⟩, hhn⟩
   · show (s.openElems ++ [h]).Nodup
     rw [hst]; simp; exact Ne.symm hne
   · show TG (nm s.dom) (s.openElems ++ [h])
@@ -244,7 +275,8 @@ theorem Core.dropSecond {s s' : State} {r a : Id} {rest : List Id} {ph : Phase} 
   refine ⟨hl, hst, by rw [hk]; exact hc.rdoc, by rw [hst]; exact hsub.nodup hc.nodup, ?_, ?_, ?_, ?_, ?_,
     (RS.of_nodes hse.nodes).uniq hc.rtu, by rw [hk]; exact hc.rnd, ?_, ?_, ?_,
     (by have haf : s'.activeFormatting = s.activeFormatting := by rw [hr]
-        rw [haf]; exact hc.afx.of_nodes hse.nodes)⟩
+        rw [haf]; exact hc.afx.of_nodes hse.nodes),
+    (by rw [hst]; exact (hc.adj.of_nodes hse.nodes).sub hc.nodup hsub)⟩
   · rw [hst]
     have h1 : TG (nm s.dom) [r] := TG.single _ _
     have : TG (nm s.dom) ([r] ++ rest) := h1.append_dis hrest
@@ -289,7 +321,8 @@ theorem Core.free {s s' : State} {r : Id} {up : List Id} {ph : Phase} (hc : Core
   exact ⟨hl, by rw [h2]; exact hc.stack, by rw [h1]; exact hc.rdoc, by rw [h2]; exact hc.nodup,
     by rw [h1, h2]; exact hc.tg, by rw [h1, h10]; exact hc.afn, by rw [h1, h2, h9]; exact hc.tc, by rw [h9]; exact hc.tmm,
     by rw [h1, h11]; exact hc.form, by rw [h1]; exact hc.rtu, by rw [h1]; exact hc.rnd, by rw [h1]; exact hc.kids,
-    by rw [h1, h3]; exact hc.elems, by rw [h1]; exact hc.bh, by rw [h1, h10]; exact hc.afx⟩
+    by rw [h1, h3]; exact hc.elems, by rw [h1]; exact hc.bh, by rw [h1, h10]; exact hc.afx,
+    by rw [h1, h2]; exact hc.adj⟩
 
 /-- `body` (or `frameset`) is inserted below the root in AfterHead -/
 theorem afterHead_insert {s s1 : State} {r el h0 : Id} {name : Str} {attrs : List Attr} {dup : Bool}
